@@ -58,7 +58,7 @@ var wants = []want{
 	{"pkg/blobserver/diskpacked/diskpacked.go", "callorder:CommitBatch<delete", "RemoveBlobs", "dp_remove_commits_index_first"},
 	// diskpacked: inside delete(), is the header rewritten (first WriteAt) before the data is destroyed (first punchHole / CopyN)?
 	{"pkg/blobserver/diskpacked/dele.go", "callorder:WriteAt<punchHole", "delete", "dp_delete_header_before_punch"},
-	{"pkg/blobserver/diskpacked/dele.go", "callorder:WriteAt<CopyN", "delete", "dp_delete_header_before_zero"},
+	{"pkg/blobserver/diskpacked/dele.go", "firstmut:WriteAt", "delete", "dp_delete_header_before_zero"},
 	// enumerate handler: does the long-poll loop run while the deadline has not passed (condition uses time.Now().Before)?
 	{"pkg/blobserver/handlers/enumerate.go", "forcond:Before", "handleEnumerateBlobs", "enum_wait_loop_runs"},
 	// client: does the callback given to doStat inside StatBlobs leave the reporting to the helper (it does not call fn itself)?
@@ -657,6 +657,24 @@ func main() {
 				return true
 			})
 			fmt.Fprintf(&b, "Definition %s : bool := %v.\n", w.coqName, found && good)
+		case "firstmut:WriteAt":
+			// the first call of the body (helpers of the file included) that writes to or cuts the file is a WriteAt - the
+			// tombstone header - and some other destroying call follows it: however the bytes are erased afterwards
+			// (io.CopyN of zeros, a loop of WriteAt, a hole punched), the header has been rewritten before
+			fd, ok := fi.funcs[w.goName]
+			if !ok {
+				fail(fmt.Errorf("func not found"))
+			}
+			var muts []string
+			fi.flatNodes(fd, func(n ast.Node) {
+				if ce, ok := n.(*ast.CallExpr); ok {
+					switch name := callName(ce); name {
+					case "WriteAt", "Write", "WriteString", "CopyN", "Copy", "Truncate", "punchHole", "PunchHole":
+						muts = append(muts, name)
+					}
+				}
+			})
+			fmt.Fprintf(&b, "Definition %s : bool := %v.\n", w.coqName, len(muts) >= 2 && muts[0] == "WriteAt")
 		case "identcalls:close":
 			fd, ok := fi.funcs[w.goName]
 			if !ok {
